@@ -31,6 +31,8 @@ structure St where
   routed : List (Nat × Nat × List Appender) := []
   streamsSeen : List Appender := []
   sawShutdown : Bool := false
+  /-- `kind=race` cases: events per thread -/
+  raceN : Option Nat := none
 
 def St.cfg (s : St) : Config :=
   { appenders := List.range s.appNames.length, loggers := s.loggers,
@@ -151,8 +153,60 @@ def stepStream (s : St) (aName : String) (res : List String) : Except String (St
         | none => .error "model=pipeline-schedule-not-enabled"
   | _, _ => .error "bad-op stream"
 
+/-- "0-3,5,7-9" → [0,1,2,3,5,7,8,9] -/
+def ranges? (tok : String) : Option (List Nat) :=
+  if tok = "-" || tok.isEmpty then some [] else
+  ((tok.splitOn ",").mapM (fun (part : String) =>
+    match part.splitOn "-" with
+    | [a] => (String.toNat? a).map (fun a => [a])
+    | [a, b] => match String.toNat? a, String.toNat? b with
+      | some a, some b => some ((List.range (b + 1 - a)).map (· + a))
+      | _, _ => none
+    | _ => none)).map List.flatten
+
+def dropKey (k : String) (tok : String) : String :=
+  if tok.startsWith (k ++ "=") then (tok.drop (k.length + 1)).toString else tok
+
+/-- shutdown-race case (see harness `child_race`): `snap` emits of this thread had returned before
+shutdown began, `got` is what the appender delivered. Model: every behaviour of the Pipeline has
+`got ⊇ [0, snap)` (`C19_no_loss_at_shutdown_partial`), strictly increasing (`C19_per_thread_order`,
+`C19_exactly_once`); the observed outcome is replayed as a Pipeline schedule. -/
+def stepRace (s : St) (n : Nat) (app : String) (t : Nat) (res : List String) : Except String (St × List String) :=
+  match (dropKey "snap" (res.getD 0 "")).toNat?, ranges? (dropKey "got" (res.getD 1 "")) with
+  | some snap, some got =>
+    let ordered := res.getD 2 "" == "ordered=1"
+    let nodup := res.getD 3 "" == "dups=0"
+    let status := res.getD 4 ""
+    let wantStatus := if app == "S" then "disconnected" else "flushed"
+    if !ordered then .error "model=per-thread-order" else
+    if !nodup then .error "model=exactly-once" else
+    if status != wantStatus then .error s!"model=[{wantStatus}]" else
+    if got.any (· ≥ n) then .error "model=unknown-seq" else
+    if !(List.range snap).all (fun q => got.contains q) then .error "model=accepted-before-shutdown-must-be-delivered" else
+    if got != List.range got.length then .error "model=gap-in-block-appender-sequence" else
+    let consumer : Pipeline.Consumer := if app == "S" then .stream else .writer
+    let mk (q : Nat) : List Pipeline.Step := [.sendBegin ⟨t, q⟩, .sendEnd ⟨t, q⟩, .consume]
+    let pre := (got.filter (· < snap)).flatMap mk
+    let conc := (got.filter (· ≥ snap)).flatMap mk
+    let late : List Pipeline.Step := if got.length < n then [.sendBegin ⟨t, n⟩] else []
+    let fin : List Pipeline.Step := match consumer with
+      | .writer => [.seeFlag, .drainEmpty]
+      | .stream => [.seeDisconnected]
+    match Pipeline.run (Pipeline.init 1 .block consumer) (pre ++ [.setFlag] ++ conc ++ [.close] ++ late ++ fin) with
+    | some p =>
+      if p.phase == .exited && p.out.map (·.seq) == got && p.accepted == p.out && p.dropped.isEmpty then
+        .ok (s, ["race-" ++ app, if got.length > snap then "race-concurrent-emits-delivered" else "race-exact",
+                 if got.length < n then "race-late-emits-refused" else "race-all-before-close"])
+      else .error "model=pipeline-out-differs"
+    | none => .error "model=pipeline-schedule-not-enabled"
+  | _, _ => .error "bad-op race"
+
 def step (s : St) (op res : List String) : Except String (St × List String) :=
   match op with
+  | ["race", app, t] =>
+    match s.raceN, t.toNat? with
+    | some n, some t => stepRace s n app t res
+    | _, _ => .error "bad-op race outside kind=race case"
   | ["appender", n, cap, pol] =>
     match cap.toNat? with
     | some c => .ok ({ s with appNames := s.appNames ++ [n], appCfg := s.appCfg ++ [(c, pol == "block")] }, [])
@@ -181,7 +235,12 @@ def finish (s : St) : Except String (List String) :=
     .error "model=missing-stream-line"
   else .ok []
 
-def init (_ws : List String) : Except String St := .ok {}
+def init (ws : List String) : Except String St :=
+  if ws.contains "kind=race" then
+    match (ws.find? (·.startsWith "n=")).bind (fun w => (w.drop 2).toString.toNat?) with
+    | some n => .ok { raceN := some n }
+    | none => .error "race case without n="
+  else .ok {}
 
 def engine : Engine St := { init := init, step := step, finish := finish }
 
